@@ -28,13 +28,32 @@ theorem no_duplicate_imports (toks : List Tok) :
 /-- **Block structure** — a control-flow line written without its brace always opens a block
 (so that `if cond` is never printed bare), and a plain statement without nested lines never does. -/
 theorem control_line_opens_block (o : Tok) (kids : List Node)
-    (h : (Gen.openingStatements.any fun s => hasPrefix (trimSpace o.lit) s) = true)
+    (h : (Gen.openingStatements.any fun s => startsStmt (trimSpace o.lit) s) = true)
     (hb : hasSuffix (trimSpace o.lit) [123] = false) : silentHasBlock o kids = true := by
   simp [silentHasBlock, h, hb]
 
 theorem plain_statement_has_no_block (o : Tok)
-    (h : (Gen.openingStatements.any fun s => hasPrefix (trimSpace o.lit) s) = false) : silentHasBlock o [] = false := by
+    (h : (Gen.openingStatements.any fun s => startsStmt (trimSpace o.lit) s) = false) : silentHasBlock o [] = false := by
   simp [silentHasBlock, h]
+
+/-- **Keywords are whole words** — a statement whose first identifier merely begins with a keyword
+(`format := x`, `iffy()`, `elsewhere`) is not that keyword's statement, for every keyword. -/
+theorem keyword_prefix_of_identifier (s rest : GoStr) (c : UInt8)
+    (hc : (c == 95 || c ≥ 128 || (48 ≤ c && c ≤ 57) || (97 ≤ c && c ≤ 122) || (65 ≤ c && c ≤ 90)) = true) :
+    startsStmt (s ++ c :: rest) s = false := by
+  simp only [startsStmt, List.drop_left, hc, Bool.not_true, Bool.and_false]
+
+/-- and the keyword alone, or followed by a space, brace or parenthesis, is -/
+theorem keyword_then_boundary (s rest : GoStr) (c : UInt8) (hc : c = 32 ∨ c = 123 ∨ c = 40) :
+    startsStmt (s ++ c :: rest) s = true ∧ startsStmt s s = true := by
+  have hp : ∀ t : GoStr, hasPrefix (s ++ t) s = true := by
+    intro t; simp [hasPrefix]
+  refine ⟨?_, ?_⟩
+  · have := hp (c :: rest)
+    rcases hc with h | h | h <;> subst h <;> simp [startsStmt, this] <;> decide
+  · have := hp []
+    simp only [List.append_nil] at this
+    simp [startsStmt, this]
 
 /-- the statement tables the emitter consults, as extracted from nodes.go on this run -/
 theorem extracted_statement_tables :
